@@ -22,6 +22,21 @@ theorem pop_wrongToken (q : Q) (tok : Nat) (ins outs : List Buf) (h : q.canPop =
     (ht : q.usedElem.1 % U16 ≠ tok) : q.popUsed tok ins outs = (q, .err .wrongToken, []) := by
   simp [Q.popUsed, h, ht]
 
+/-- A blocking request whose wait is ended by **another** chain's completion (reported during the
+wait, or already pending when the call was made) returns `WrongToken` and leaves everything exactly
+as its own submission left it: the chain it published stays outstanding with its descriptors and its
+shared buffers, because the device still owns it.  (Seeded change C01-7 recycled it here.) -/
+theorem anwp_foreign_first (q q1 : Q) (ins outs : List Buf) (t : Nat) (evs : List Ev)
+    (f : Option (Nat × Nat)) (h : q.add ins outs = (q1, .token t, evs))
+    (hc : (q1.devUsedOpt f).canPop = true) (hne : (q1.devUsedOpt f).usedElem.1 % U16 ≠ t) :
+    q.addNotifyWaitPopForeign ins outs f
+      = (q1.devUsedOpt f, .err .wrongToken, evs, q1.shouldNotify) := by
+  unfold Q.addNotifyWaitPopForeign
+  rw [h]
+  simp only []
+  rw [pop_wrongToken _ t ins outs hc hne]
+  simp
+
 /-- Any failing poll changes nothing. -/
 theorem pop_err_changes_nothing (q q' : Q) (tok : Nat) (ins outs : List Buf) (e : Err) (evs : List Ev)
     (h : q.popUsed tok ins outs = (q', .err e, evs)) : q' = q ∧ evs = [] :=
@@ -148,6 +163,16 @@ example :
     let (q6, r6, _) := q5.popUsed 0 [⟨0, 4⟩] [⟨1, 8⟩]
     (r1, r2, r4, r5, r6) = (.token 0, .token 2, .err .wrongToken, .len 8, .len 5)
       ∧ q2.availIdx = 1 ∧ q6.lastUsedIdx = 1 ∧ q6.numUsed = 0 ∧ q6.availableDesc = 4 := by
+  decide +kernel
+
+/-- the hypotheses of `anwp_foreign_first` are met: an earlier chain is reported during the wait of a
+blocking request; the blocking request's own chain (head 1) stays outstanding, two descriptors in use -/
+example :
+    let q0 := Q.init 4 false false false
+    let (q1, _, _) := q0.add [] [⟨0, 8⟩]
+    let (q2, r2, _, _) := q1.addNotifyWaitPopForeign [⟨1, 4⟩] [] (some (0, 8))
+    r2 = .err .wrongToken ∧ q2.numUsed = 2 ∧ q2.availIdx = 2 ∧ q2.canPop = true
+      ∧ (q2.popUsed 0 [] [⟨0, 8⟩]).2.1 = .len 8 := by
   decide +kernel
 
 end VirtioVerif.Props.C03
